@@ -13,6 +13,7 @@ import Falcon.Model.SignSkel
 import Falcon.Model.FftFlt
 import Falcon.Model.FfSampling
 import Falcon.Model.SignFlt
+import Falcon.Model.Keygen
 import Falcon.Spec.RefFormat
 import Falcon.Spec.Codec
 /- dispatch of one line-protocol op to the model -/
@@ -194,7 +195,15 @@ def execOp (chk : Bool) (tok : List String) : String :=
   | ["u32f_ntt_mul", a, b] =>
       let va := parseNats a; let vb := parseNats b; let d := Ntt.log2 va.length
       renderRes renderInts (Zp.intt d (List.zipWith Zp.mul (Zp.ntt d va) (Zp.ntt d vb)))
-  | ["babai", _, _, _, _, _] => "skip"
+  | ["babai", _, f, g, cf, cg] =>
+      -- both reductions, floating point included: must reproduce the real functions' outputs
+      let f := parseInts f; let g := parseInts g; let cf := parseInts cf; let cg := parseInts cg
+      let big := Keygen.babaiBig f g cf cg
+      let okS (b : Bool) := if b then "Ok" else "Err"
+      match Keygen.babaiI32 chk f g cf cg with
+      | .panic k => "PANIC:" ++ renderKind k
+      | .ok (ok1, a1, b1) =>
+        s!"i32:{okS ok1} {renderInts a1} {renderInts b1} big:{okS big.1} {renderInts big.2.1} {renderInts big.2.2}"
   | ["babai_inv", n, f, g, cf, cg, a, b] =>
       let n := parseNat n; let f := parseInts f; let g := parseInts g
       if RingZ.ntruLhs n f g (parseInts cf) (parseInts cg) == RingZ.ntruLhs n f g (parseInts a) (parseInts b)
@@ -317,6 +326,27 @@ def execOp (chk : Bool) (tok : List String) : String :=
   | ["interop_export", _, _, _] => "skip"
   | ["interop_import", _, _] => "skip"
   | ["keygen", _, _] => "skip"
+  | ["keygen_model", n, seed] =>
+      -- the whole of key generation in the model (floating point included): same f, g, F, G, h and extreme tree leaves
+      let N := parseNat n
+      let sd := parseHex seed
+      let sd := sd ++ List.replicate (32 - sd.length) 0
+      match Keygen.ntruGen chk N sd with
+      | .panic k => "PANIC:" ++ renderKind k
+      | .ok .exhausted => "skip"
+      | .ok (.key f g cF cG _) =>
+        let d := Ntt.log2 N
+        let hres : Res (List Nat) := do
+          let inv ← Zq.batchInv chk (Ntt.ntt d (f.map Zq.new))
+          Ntt.intt d (Ntt.hadamard (Ntt.ntt d (g.map Zq.new)) inv)
+        match hres with
+        | .panic k => "PANIC:" ++ renderKind k
+        | .ok h =>
+          let b0 := [g, f.map (- ·), cG, cF.map (- ·)]
+          let leaves := FfS.normalizedLeaves (FfS.sigmaOf N) (FfS.treeOfB0 b0)
+          let lmin := leaves.foldl (fun a x => if x < a then x else a) (1.0 / 0.0)
+          let lmax := leaves.foldl (fun a x => if x > a then x else a) (-(1.0 / 0.0))
+          s!"{renderInts f} {renderInts g} {renderInts cF} {renderInts cG} {renderInts h} {lmin.toBits.toNat} {lmax.toBits.toNat}"
   | ["sk_roundtrip", _, _] => "skip"
   | ["keygen_digest", _, _] => "skip"
   | _ => "bad-op"
